@@ -46,7 +46,9 @@ def state_graph(module, constants=None):
             fh.write(cfg)
         r = subprocess.run(
             ["tlc", "-workers", "1", "-noGenerateSpecTE", "-metadir", os.path.join(tmp, "meta"), "-dump", "dot,actionlabels", os.path.join(tmp, "out"), module],
-            cwd=tmp, capture_output=True, text=True, timeout=300)
+            cwd=tmp, capture_output=True, text=True, timeout=300,
+            # TLC's own scratch directory (java.io.tmpdir) goes into the run's directory too, which is removed below
+            env=dict(os.environ, JAVA_TOOL_OPTIONS=(os.environ.get("JAVA_TOOL_OPTIONS", "") + " -Djava.io.tmpdir=" + tmp).strip()))
         out = r.stdout + r.stderr
         if "No error has been found" not in out:
             raise HarnessError(f"TLC did not verify {module}: {out[-1500:]}")
